@@ -44,7 +44,7 @@ def judge(ctx, prog, sites, reviewed, rule="F2-absorb", scope_note=""):
         callee = s.callee
         if "CssDestination" in callee and callee.rsplit("::", 1)[-1] in DEST_METHODS:
             n_dest += 1
-        base = f"{fn_key(s.body.def_)}|{callee}"
+        base = f"{fn_key(s.body.def_, prog)}|{callee}"
         if v in ("propagate", "panics"):
             ctx.ok(rule, ords.key(base + "|" + v), None)
             continue
